@@ -25,7 +25,9 @@ EXPLANATION = (
     "guarded by flow_was_empty, which is cleared only for a non-empty block; (f) an empty Split installs the "
     "identity _empty_run; (g) Zip._yield pulls every branch once per round in list order and a StopIteration "
     "leaves the loop without yielding the partial tuple; every sequence class the classifier knows has its own isinstance test and no "
-    "duck-typing test is reached before all of them have failed.  Does not decide the concrete output order/values nor "
+    "duck-typing test is reached before all of them have failed; the sequence predicates is_fill_compute_seq / is_fill_request_seq ask of an "
+    "element exactly what the element predicate asks (any(map(pred, seq)) or the equivalent generator, no extra conjunct or filter), "
+    "and the common-type methods _compute/_request/__call__ start a branch only when it is reached (no list of started branches).  Does not decide the concrete output order/values nor "
     "bufsize-independence of results.")
 RULES = {
     "C03-a": "AGREE: classifier kinds = kinds dispatched in the block loop = kinds of the final pass; common-type tables within the kinds",
